@@ -318,4 +318,116 @@ theorem weighted_identical (m c : Rat) (k : Nat) (hk : 2 ≤ k) (hc : c ≠ 0) :
 
 example : (2 : Nat) ≤ 3 ∧ (5 : Rat) ≠ 0 := by constructor <;> norm_num
 
+/-- the regrouping of `merge_track_msds` on `k` copies of one list of rows with distinct lags -/
+theorem ensembleMsdRows_replicate (rows : List MsdRow) (hs : (rows.map (·.lag)).Pairwise (· < ·))
+    (hc : ∀ r ∈ rows, r.count ≠ 0) (hne : rows ≠ []) (k : Nat) (hk : 2 ≤ k) (minCount : Int)
+    (hm : minCount ≤ k) :
+    ensembleMsdRows (List.replicate k rows) minCount =
+      .ok (rows.map fun r => ⟨r.lag, ⟨r.msd, 0, k * r.count, k⟩⟩) := by
+  unfold ensembleMsdRows
+  rw [List.length_replicate, if_neg (by omega)]
+  have hlags : uniqueSorted (((List.replicate k rows).flatten).map (·.lag)) = rows.map (·.lag) := by
+    apply uniqueSorted_of_sorted _ _ hs
+    intro x
+    simp only [List.mem_map, mem_flat_replicate rows k (by omega)]
+  have hkept : ∀ u ∈ rows.map (·.lag),
+      decide (minCount ≤ (((List.replicate k rows).flatten.countP fun r => r.lag == u : Nat) : Int)) = true := by
+    intro u hu
+    obtain ⟨r, hr, rfl⟩ := List.mem_map.mp hu
+    rw [List.countP_eq_length_filter, flat_filter_replicate rows hs k r hr, List.length_replicate]
+    simpa using hm
+  simp only [hlags, List.filter_eq_self.mpr hkept, List.mapM_map]
+  rw [mapM_ok _ (fun r : MsdRow => (⟨r.lag, ⟨r.msd, 0, k * r.count, k⟩⟩ : EnsRow))]
+  · simp only
+    rw [if_neg]
+    simpa using hne
+  · intro r hr
+    simp only [Function.comp]
+    rw [flat_filter_replicate rows hs k r hr, List.map_replicate,
+      weighted_identical r.msd r.count k hk (by exact_mod_cast hc r hr)]
+    rfl
+
+theorem msdCounts_lags_sorted (t : List Pt) (L : Option Int) :
+    ((msdCounts t L).map (·.lag)).Pairwise (· < ·) := by
+  rw [(msd_lags t L).1]
+  exact (lagsAll_sorted t).sublist (pySliceOpt_sublist _ _)
+
+/-- **ensemble_identical (MSD).** An ensemble of `k ≥ 2` identical tracks reproduces, at every lag, the
+    single-track MSD, with variance 0, `k·count` contributing pairs and effective sample size `k`
+    (for every `max_lag` and every `min_count ≤ k`). -/
+theorem ensemble_identical_msd (t : List Pt) (L : Option Int) (k : Nat) (hk : 2 ≤ k) (minCount : Int)
+    (hm : minCount ≤ k) (hne : msdCounts t L ≠ []) :
+    ensembleMsd (List.replicate k t) L minCount =
+      .ok ((msdCounts t L).map fun r => ⟨r.lag, ⟨r.msd, 0, k * r.count, k⟩⟩) := by
+  unfold ensembleMsd
+  rw [List.map_replicate]
+  exact ensembleMsdRows_replicate _ (msdCounts_lags_sorted t L)
+    (fun r hr => by have := msd_count_pos t L r hr; omega) hne k hk minCount hm
+
+example : (2 : Nat) ≤ 3 ∧ ((1 : Int) ≤ (3 : Nat)) ∧ msdCounts [(0, 0), (1, 1), (3, 2)] none ≠ [] := by
+  refine ⟨by decide, by decide, ?_⟩
+  intro h
+  have : (msdCounts [(0, 0), (1, 1), (3, 2)] none).map (·.lag) = [] := by rw [h]; rfl
+  rw [(msd_lags _ _).1] at this
+  revert this
+  decide
+
+/-- **ensemble_identical (CVE).** The ensemble CVE of `k ≥ 2` copies of a track returns that track's diffusion
+    constant and localisation variance, with zero ensemble variance and `k·N` points. -/
+theorem ensemble_identical_cve (t : List Pt) (dt R : Rat) (k : Nat) (hk : 2 ≤ k) (hn : 3 ≤ t.length)
+    (o : Cve) (ho : cve t dt R none none = .ok o) :
+    ensembleCve (List.replicate k t) dt R = .ok ⟨o.D, 0, o.lv, 0, k * t.length⟩ := by
+  obtain ⟨j, rfl⟩ : ∃ j, k = j + 2 := ⟨k - 2, by omega⟩
+  have hc : ((t.length : Nat) : Rat) ≠ 0 := by
+    have : (0 : Rat) < (t.length : Nat) := by exact_mod_cast (by omega : 0 < t.length)
+    exact ne_of_gt this
+  have hmap : (List.replicate (j + 2) t).mapM (fun t => (cve t dt R none none).map fun c => (c, t.length))
+      = .ok (List.replicate (j + 2) (o, t.length)) := by
+    rw [mapM_ok _ (fun _ => (o, t.length))]
+    · simp
+    · intro x hx; rw [(List.mem_replicate.mp hx).2, ho]; rfl
+  have e : List.replicate (j + 2) (o, t.length) = (o, t.length) :: (o, t.length) :: List.replicate j (o, t.length) := by
+    simp [List.replicate_succ]
+  unfold ensembleCve
+  rw [List.filter_replicate, if_pos (by simpa using hn)]
+  simp only [hmap]
+  rw [e]
+  simp only
+  rw [← e]
+  simp only [List.map_replicate, meanVar_replicate _ _ _ hk hc]
+  congr 2
+  simp [List.sum_replicate]
+
+example : ∃ o, cve [(0, 0), (1, 1), (3, 3)] 1 (1 / 6) none none = .ok o := by
+  obtain ⟨o, h, _⟩ := cve_def [(0, 0), (1, 1), (3, 3)] 1 (1 / 6) (by constructor <;> norm_num) (by simp)
+  exact ⟨o, h⟩
+
+/-- positions scaled by `a`: OLS value and localisation variance scale by `a²`, the squared standard
+    error by `a⁴`; errors unchanged. -/
+theorem ols_scale (a : Rat) (t : List Pt) (dt : Rat) (L : Int) :
+    olsEstimate (scale a t) dt L =
+      (olsEstimate t dt L).map fun e => ⟨a ^ 2 * e.value, a ^ 4 * e.var, a ^ 2 * e.lv, e.varDefined⟩ := by
+  have e2 : a ^ 2 = a * a := by ring
+  have e4 : a ^ 4 = a * a * (a * a) := by ring
+  unfold olsEstimate
+  split
+  · rfl
+  · rw [msd_scale, e2, e4, olsFromRows_scale]
+    simp [scale]
+
+/-- line time scaled by `c`: value `/c`, squared standard error `/c²`, localisation variance unchanged. -/
+theorem ols_time_scale (c : Rat) (t : List Pt) (dt : Rat) (L : Int) :
+    olsEstimate t (c * dt) L =
+      (olsEstimate t dt L).map fun e => ⟨e.value / c, e.var / c ^ 2, e.lv, e.varDefined⟩ := by
+  unfold olsEstimate
+  split
+  · rfl
+  · simp only [olsFromRows]
+    by_cases h : olsDen (ptsOf (msdCounts t (some L))) = 0
+    · simp only [h, if_true, Except.map]
+    · generalize olsLine (ptsOf (msdCounts t (some L))) = ab
+      obtain ⟨a, b⟩ := ab
+      simp only [h, if_false, Except.map, if_true, sqr, Except.ok.injEq, Est.mk.injEq, and_true]
+      refine ⟨by ring, by ring⟩
+
 end Verif.C09
